@@ -22,6 +22,8 @@ type Vec struct {
 	Order []int   `json:"insertion_order,omitempty"`
 	// LevelRot > 0: the contributor lists of the levels handed to the settlement are turned by that many places
 	LevelRot int `json:"level_contributors_turned,omitempty"`
+	// Twice: the pots are asked for twice and the second answer is the one that is judged
+	Twice bool `json:"pots_asked_twice,omitempty"`
 }
 
 func (v Vec) order() []int {
@@ -143,6 +145,9 @@ func Run(v Vec) (pots []*pot.Pot, res *settlement.Result, perr interface{}) {
 		ll.AddContributor(v.C[i], i, v.F[i])
 	}
 	pots = ll.GetPots()
+	if v.Twice {
+		pots = ll.GetPots() // asking again must give the same pots
+	}
 	res = settlement.NewResult()
 	for j, p := range pots {
 		levels := p.Levels
